@@ -192,8 +192,230 @@ example (fuel : Nat) :
       (fun _ => True) (Bt.attemptFresh exProg1 exInp1 fuel 2) :=
   bt_attemptFresh_safe_ascii (by decide +kernel) (by decide +kernel) rfl (by decide) fuel
 
+/-! ## Stage 2 — UTF-8 input, every `byteSeq` chunk a whole number of characters
+
+`Utf8Text inp cs`: `inp.kind = .utf8`, `inp.bytes = (Utf8.encodeAll cs).toArray`, every element of
+`cs` a scalar value. `VUtf8 inp p`: `p ≤ inp.len ∧ Utf8.isBoundary inp.bytes p`.
+`Bt.StateOK prog (VUtf8 inp) st`: `st.loops.size = prog.loops`, `st.groups.size = prog.groups`, every
+`Some` group end is a boundary `≤ len`. -/
+
+theorem bt_run_safe_utf8_partial {prog : Prog} {inp : Input} {cs : List Nat} (hw : wfProg prog = true)
+    (hnb : noIcaseBackref prog = true) (hns : noSplitChunks prog = true) (h : Utf8Text inp cs)
+    (limit sf b ip pos : Nat) (fwd : Bool) (st : Bt.State) (bts : Array Bt.BtInsn) (steps peak : Nat)
+    (hinv : Bt.Inv prog (Utf8A prog inp) (VUtf8 inp) b fwd ip pos st bts) :
+    Bt.Post (Bt.QMs prog (VUtf8 inp) b fwd) (Bt.StateOK prog (VUtf8 inp))
+      (Bt.run prog inp limit sf ip pos fwd st bts steps peak) :=
+  Bt.run_safe (specUtf8Plain hw hns h) hw hnb limit sf b ip pos fwd st bts steps peak hinv
+
+/-- **`bt_safe_utf8_partial`.** No error; a match ends on a boundary `e` with `pos ≤ e ≤ len`; the
+final state (match or failure) holds only boundaries. -/
+theorem bt_safe_utf8_partial {prog : Prog} {inp : Input} {cs : List Nat} (hw : wfProg prog = true)
+    (hnb : noIcaseBackref prog = true) (hns : noSplitChunks prog = true) (h : Utf8Text inp cs)
+    {pos : Nat} (hp : VUtf8 inp pos) {st : Bt.State} (hst : Bt.StateOK prog (VUtf8 inp) st)
+    (sf limit : Nat) :
+    Bt.Post (fun e st' => pos ≤ e ∧ VUtf8 inp e ∧ Bt.StateOK prog (VUtf8 inp) st')
+      (Bt.StateOK prog (VUtf8 inp))
+      (Bt.run prog inp limit sf 0 pos true st #[.exhausted] 0 0) := by
+  have := bt_run_safe_utf8_partial hw hnb hns h limit sf pos 0 pos true st #[.exhausted] 0 0
+    ⟨⟨wf_size_pos hw, hp⟩, MovedLe.refl _ _, hst, Bt.stackOK_init _ _⟩
+  exact Bt.Post.mono this (fun e st' h => ⟨h.2.1.1 rfl, h.1, h.2.2⟩) (fun _ h => h)
+
+/-- One attempt on a fresh matcher, Stage 2. -/
+theorem bt_attemptFresh_safe_utf8_partial {prog : Prog} {inp : Input} {cs : List Nat}
+    (hw : wfProg prog = true) (hnb : noIcaseBackref prog = true) (hns : noSplitChunks prog = true)
+    (h : Utf8Text inp cs) {pos : Nat} (hp : VUtf8 inp pos) (fuel : Nat) :
+    Bt.Post (fun e st' => pos ≤ e ∧ VUtf8 inp e ∧
+        ∀ s e', some (s, e') ∈ Bt.capsOf st' → VUtf8 inp s ∧ VUtf8 inp e')
+      (fun _ => True) (Bt.attemptFresh prog inp fuel pos) :=
+  Bt.Post.mono (bt_safe_utf8_partial hw hnb hns h hp (freshState_ok prog _ 0) fuel fuel)
+    (fun _ _ h => ⟨h.1, h.2.1, caps_ok h.2.2⟩) (fun _ _ => trivial)
+
+theorem pk_safe_of_spec {prog : Prog} {inp : Input} {A : Bool → Nat → Nat → Prop} {V : Nat → Prop}
+    (hs : Spec prog inp A V) (hw : wfProg prog = true) (hnb : noIcaseBackref prog = true)
+    {pos : Nat} (hA : A true 0 pos) (entry fuel : Nat) :
+    match Pk.attemptAt prog inp fuel pos entry with
+    | .error _ => False
+    | .matched e st _ _ => pos ≤ e ∧ V e ∧ e = st.pos ∧
+        ∀ s e', some (s, e') ∈ Pk.capsOf st → V s ∧ V e'
+    | _ => True := by
+  have := Pk.runStates_safe hs hw hnb fuel fuel #[Pk.initState prog pos entry] true 0 0 pos
+    (Pk.AllOK.single ⟨hA, MovedLe.refl _ _, initState_ok prog _ pos entry⟩)
+  unfold Pk.attemptAt Pk.tryAtPos
+  cases hr : Pk.runStates prog inp fuel fuel #[Pk.initState prog pos entry] true 0 0 with
+  | error e => rw [hr] at this; exact this
+  | matched e st _ _ => rw [hr] at this; exact ⟨this.2.2.1.1 rfl, this.2.1, this.1, pk_caps_ok this.2.2.2⟩
+  | failed _ _ => trivial
+  | outOfFuel => trivial
+
+/-- **`pk_safe_utf8_partial`.** -/
+theorem pk_safe_utf8_partial {prog : Prog} {inp : Input} {cs : List Nat} (hw : wfProg prog = true)
+    (hnb : noIcaseBackref prog = true) (hns : noSplitChunks prog = true) (h : Utf8Text inp cs)
+    {pos : Nat} (hp : VUtf8 inp pos) (entry fuel : Nat) :
+    match Pk.attemptAt prog inp fuel pos entry with
+    | .error _ => False
+    | .matched e st _ _ => pos ≤ e ∧ VUtf8 inp e ∧ e = st.pos ∧
+        ∀ s e', some (s, e') ∈ Pk.capsOf st → VUtf8 inp s ∧ VUtf8 inp e'
+    | _ => True :=
+  pk_safe_of_spec (specUtf8Plain hw hns h) hw hnb ⟨wf_size_pos hw, hp⟩ entry fuel
+
+/-! ## Stage 3 — UTF-8 input, literals split inside a character
+
+`checkCert prog c` (see `SafetyCommon`): `c` assigns to every instruction its direction and the
+*phase* (distance to the next char boundary) of the positions at which it is entered; the check is
+local (one instruction and its successors). `mkCert prog` computes the canonical certificate in one
+pass; `wfProgUtf8 prog = wfProg prog && checkCert prog (mkCert prog)`. -/
+
+theorem cert_start {prog : Prog} {c : Cert} (hw : wfProg prog = true) (hc : checkCert prog c = true)
+    {inp : Input} {cs : List Nat} (h : Utf8Text inp cs) {pos : Nat} (hp : VUtf8 inp pos) :
+    CertA prog c cs true 0 pos := by
+  simp only [checkCert, Bool.and_eq_true, beq_iff_eq] at hc
+  exact ⟨wf_size_pos hw, 0, hc.1, (ph_zero_iff h).mpr hp⟩
+
+theorem bt_run_safe_utf8 {prog : Prog} {inp : Input} {cs : List Nat} {c : Cert}
+    (hw : wfProg prog = true) (hnb : noIcaseBackref prog = true) (hc : checkCert prog c = true)
+    (h : Utf8Text inp cs)
+    (limit sf b ip pos : Nat) (fwd : Bool) (st : Bt.State) (bts : Array Bt.BtInsn) (steps peak : Nat)
+    (hinv : Bt.Inv prog (CertA prog c cs) (VUtf8 inp) b fwd ip pos st bts) :
+    Bt.Post (Bt.QMs prog (VUtf8 inp) b fwd) (Bt.StateOK prog (VUtf8 inp))
+      (Bt.run prog inp limit sf ip pos fwd st bts steps peak) :=
+  Bt.run_safe (specUtf8Cert hw hc h) hw hnb limit sf b ip pos fwd st bts steps peak hinv
+
+/-- **`bt_safe_utf8`** (no `noSplitChunks`). -/
+theorem bt_safe_utf8 {prog : Prog} {inp : Input} {cs : List Nat} {c : Cert} (hw : wfProg prog = true)
+    (hnb : noIcaseBackref prog = true) (hc : checkCert prog c = true) (h : Utf8Text inp cs)
+    {pos : Nat} (hp : VUtf8 inp pos) {st : Bt.State} (hst : Bt.StateOK prog (VUtf8 inp) st)
+    (sf limit : Nat) :
+    Bt.Post (fun e st' => pos ≤ e ∧ VUtf8 inp e ∧ Bt.StateOK prog (VUtf8 inp) st')
+      (Bt.StateOK prog (VUtf8 inp))
+      (Bt.run prog inp limit sf 0 pos true st #[.exhausted] 0 0) := by
+  have := bt_run_safe_utf8 hw hnb hc h limit sf pos 0 pos true st #[.exhausted] 0 0
+    ⟨cert_start hw hc h hp, MovedLe.refl _ _, hst, Bt.stackOK_init _ _⟩
+  exact Bt.Post.mono this (fun e st' h => ⟨h.2.1.1 rfl, h.1, h.2.2⟩) (fun _ h => h)
+
+/-- One attempt on a fresh matcher, Stage 3, with the computed certificate. -/
+theorem bt_attemptFresh_safe_utf8 {prog : Prog} {inp : Input} {cs : List Nat}
+    (hw : wfProgUtf8 prog = true) (hnb : noIcaseBackref prog = true)
+    (h : Utf8Text inp cs) {pos : Nat} (hp : VUtf8 inp pos) (fuel : Nat) :
+    Bt.Post (fun e st' => pos ≤ e ∧ VUtf8 inp e ∧
+        ∀ s e', some (s, e') ∈ Bt.capsOf st' → VUtf8 inp s ∧ VUtf8 inp e')
+      (fun _ => True) (Bt.attemptFresh prog inp fuel pos) := by
+  simp only [wfProgUtf8, Bool.and_eq_true] at hw
+  exact Bt.Post.mono (bt_safe_utf8 hw.1 hnb hw.2 h hp (freshState_ok prog _ 0) fuel fuel)
+    (fun _ _ h => ⟨h.1, h.2.1, caps_ok h.2.2⟩) (fun _ _ => trivial)
+
+/-- **`pk_safe_utf8`** (no `noSplitChunks`). -/
+theorem pk_safe_utf8 {prog : Prog} {inp : Input} {cs : List Nat} {c : Cert} (hw : wfProg prog = true)
+    (hnb : noIcaseBackref prog = true) (hc : checkCert prog c = true) (h : Utf8Text inp cs)
+    {pos : Nat} (hp : VUtf8 inp pos) (entry fuel : Nat) :
+    match Pk.attemptAt prog inp fuel pos entry with
+    | .error _ => False
+    | .matched e st _ _ => pos ≤ e ∧ VUtf8 inp e ∧ e = st.pos ∧
+        ∀ s e', some (s, e') ∈ Pk.capsOf st → VUtf8 inp s ∧ VUtf8 inp e'
+    | _ => True :=
+  pk_safe_of_spec (specUtf8Cert hw hc h) hw hnb (cert_start hw hc h hp) entry fuel
+
+/-! ### Non-vacuity (UTF-8) -/
+
+/-- Dump of `/(?<=(é+))b\1|c{2,3}?[^x]*/` (look-behind, `loop1`, back-reference, multi-byte literal). -/
+def exProg2 : Prog :=
+  { insns := #[.alt 11,
+      .lookbehind false 0 1 8,
+      .beginCaptureGroup 0,
+      .byteSeq [0xc3, 0xa9],
+      .loop1 0 none true,
+      .byteSeq [0xc3, 0xa9],
+      .endCaptureGroup 0,
+      .goal,
+      .byteSeq [0x62],
+      .backRef 0 false,
+      .jump 16,
+      .byteSeq [0x63, 0x63],
+      .loop1 0 (some 1) false,
+      .byteSeq [0x63],
+      .loop1 0 none true,
+      .bracket 0,
+      .goal],
+    brackets := #[{ invert := true, ivs := [(0x78, 0x78)] }],
+    loops := 0, groups := 1, flags := {  }, names := [], startPred := .set [0x62, 0x63] }
+
+#guard (match parseProg "P~0~1~-~-|S~set~62~63|B~0~1~78-78|I~alt~11|I~lookbehind~0~0~1~8|I~begin~0|I~byteseq~c3~a9|I~loop1~0~inf~1|I~byteseq~c3~a9|I~end~0|I~goal|I~byteseq~62|I~backref~0~0|I~jump~16|I~byteseq~63~63|I~loop1~0~1~0|I~byteseq~63|I~loop1~0~inf~1|I~bracket~0|I~goal|" with
+  | .ok p => p == exProg2 | .error _ => false)
+
+example : wfProg exProg2 = true ∧ noIcaseBackref exProg2 = true ∧ noSplitChunks exProg2 = true ∧
+    wfProgUtf8 exProg2 = true := by decide +kernel
+
+/-- "éébéé" -/
+def exInp2 : Input :=
+  { kind := .utf8, bytes := Utf8.text [0xE9, 0xE9, 0x62, 0xE9, 0xE9], unicode := false }
+
+theorem exInp2_text : Utf8Text exInp2 [0xE9, 0xE9, 0x62, 0xE9, 0xE9] := ⟨rfl, rfl, by decide⟩
+
+#guard (match Bt.attemptFresh exProg2 exInp2 1000 4 with
+  | .matched e st _ _ => e == 9 && Bt.capsOf st == [some (0, 4)] | _ => false)
+
+example (fuel : Nat) :
+    Bt.Post (fun e st' => 4 ≤ e ∧ VUtf8 exInp2 e ∧
+        ∀ s e', some (s, e') ∈ Bt.capsOf st' → VUtf8 exInp2 s ∧ VUtf8 exInp2 e')
+      (fun _ => True) (Bt.attemptFresh exProg2 exInp2 fuel 4) :=
+  bt_attemptFresh_safe_utf8_partial (by decide +kernel) (by decide +kernel) (by decide +kernel)
+    exInp2_text (by decide +kernel) fuel
+
+/-- Dump of `/aααααααα€€x|(?<=zééééééééé€€€)q\b/`: a 22-byte and a 28-byte literal, each split into two
+`byteSeq` chunks *inside* a character (after the lead byte `e2` of `€` resp. `c3` of `é`), the second
+one inside a look-behind (chunks in reverse order, matched right to left). -/
+def exProg3 : Prog :=
+  { insns := #[.alt 4,
+      .byteSeq [0x61, 0xce, 0xb1, 0xce, 0xb1, 0xce, 0xb1, 0xce, 0xb1, 0xce, 0xb1, 0xce, 0xb1, 0xce, 0xb1, 0xe2],
+      .byteSeq [0x82, 0xac, 0xe2, 0x82, 0xac, 0x78],
+      .jump 10,
+      .lookbehind false 0 0 8,
+      .byteSeq [0xa9, 0xc3, 0xa9, 0xe2, 0x82, 0xac, 0xe2, 0x82, 0xac, 0xe2, 0x82, 0xac],
+      .byteSeq [0x7a, 0xc3, 0xa9, 0xc3, 0xa9, 0xc3, 0xa9, 0xc3, 0xa9, 0xc3, 0xa9, 0xc3, 0xa9, 0xc3, 0xa9, 0xc3],
+      .goal,
+      .byteSeq [0x71],
+      .wordBoundary false,
+      .goal],
+    brackets := #[],
+    loops := 0, groups := 0, flags := {  }, names := [], startPred := .set [0x61, 0x71] }
+
+#guard (match parseProg "P~0~0~-~-|S~set~61~71|I~alt~4|I~byteseq~61~ce~b1~ce~b1~ce~b1~ce~b1~ce~b1~ce~b1~ce~b1~e2|I~byteseq~82~ac~e2~82~ac~78|I~jump~10|I~lookbehind~0~0~0~8|I~byteseq~a9~c3~a9~e2~82~ac~e2~82~ac~e2~82~ac|I~byteseq~7a~c3~a9~c3~a9~c3~a9~c3~a9~c3~a9~c3~a9~c3~a9~c3|I~goal|I~byteseq~71|I~wb~0|I~goal|" with
+  | .ok p => p == exProg3 | .error _ => false)
+
+/-- The split chunks are not whole characters, but the phase certificate validates. -/
+example : wfProg exProg3 = true ∧ noIcaseBackref exProg3 = true ∧ noSplitChunks exProg3 = false ∧
+    wfProgUtf8 exProg3 = true := by decide +kernel
+
+/-- The computed certificate: directions and phases (`2` after `…e2`, `1` after `a9…` backwards). -/
+example : mkCert exProg3 =
+    { dir := #[true, true, true, true, true, false, false, false, true, true, true],
+      ph := #[0, 0, 2, 0, 0, 0, 1, 0, 0, 0, 0] } := by decide +kernel
+
+/-- "zééééééééé€€€q" -/
+def exInp3 : Input :=
+  { kind := .utf8,
+    bytes := Utf8.text [0x7A, 0xE9, 0xE9, 0xE9, 0xE9, 0xE9, 0xE9, 0xE9, 0xE9, 0xE9, 0x20AC, 0x20AC, 0x20AC, 0x71],
+    unicode := false }
+
+theorem exInp3_text : Utf8Text exInp3
+    [0x7A, 0xE9, 0xE9, 0xE9, 0xE9, 0xE9, 0xE9, 0xE9, 0xE9, 0xE9, 0x20AC, 0x20AC, 0x20AC, 0x71] :=
+  ⟨rfl, rfl, by decide⟩
+
+#guard (match Bt.attemptFresh exProg3 exInp3 1000 28 with | .matched e _ _ _ => e == 29 | _ => false)
+#guard (match Pk.attempt exProg3 exInp3 1000 28 with | .matched e _ _ _ => e == 29 | _ => false)
+
+example (fuel : Nat) :
+    Bt.Post (fun e st' => 28 ≤ e ∧ VUtf8 exInp3 e ∧
+        ∀ s e', some (s, e') ∈ Bt.capsOf st' → VUtf8 exInp3 s ∧ VUtf8 exInp3 e')
+      (fun _ => True) (Bt.attemptFresh exProg3 exInp3 fuel 28) :=
+  bt_attemptFresh_safe_utf8 (by decide +kernel) (by decide +kernel) exInp3_text (by decide +kernel) fuel
+
 #print axioms bt_safe_ascii
 #print axioms bt_attemptFresh_safe_ascii
 #print axioms pk_safe_ascii
+#print axioms bt_safe_utf8_partial
+#print axioms pk_safe_utf8_partial
+#print axioms bt_safe_utf8
+#print axioms bt_attemptFresh_safe_utf8
+#print axioms pk_safe_utf8
 
 end Regress.C06
